@@ -79,7 +79,7 @@ def run_reports(prop, tier, seed, exports=False, gantt=False, replay=None, procs
     problems = FT.number([replay["problem"]]) if replay else FR.fam_reports(tier, seed)
     if prop == "C11" and not replay:
         # the solution object is also checked on the task/resource families of C02
-        extra = FT.fam_C02(tier, seed)
+        extra = [p for p in FT.fam_C02(tier, seed) if not p.get("_opts", {}).get("solutions_only")]
         extra = rng.sample(extra, min(len(extra), 60 if full else 15))
         problems = FT.number(problems + extra)
     V, st_enum = tlc.enumerate_V(problems)
@@ -147,7 +147,8 @@ def run_C16(tier, seed, replay=None, procs=16):
     out = run_reports("C16", tier, seed, exports=True, procs=procs)
     rng = random.Random(seed + 19)
     full = tier == "thorough"
-    base = FT.fam_C02(tier, seed) + FT.fam_C03(tier, seed) + FT.fam_C01(tier, seed)
+    base = [p for p in FT.fam_C02(tier, seed) + FT.fam_C03(tier, seed) + FT.fam_C01(tier, seed)
+            if not p.get("_opts", {}).get("solutions_only")]
     base = rng.sample(base, min(len(base), 150 if full else 45))
     if replay:
         base = [replay["problem"]]
